@@ -115,13 +115,13 @@ CHECKS['C01'] = dict(title='Command-line values reach their typed destinations, 
     level_text='every configuration of 2 (quick) / 3 (thorough) arguments over 7 destination kinds, 3 key kinds, prefix-sharing long keys, abbreviations on/off; every assignment from the value domains; every legal spelling (short/long/=/glued/abbreviation/flag group) and order; each evaluated and compared with the intended typed values',
     level_note=_ARGS_NOTE,
     rule='configuration x subset of arguments x values (odometer) x surface forms (odometer over per-use spellings + flag grouping) x permutations; states = configurations, transitions = evalArguments calls; non-trivial = configurations',
-    bound={'quick': '2 arguments, all kinds/keys, all spellings, both orders', 'thorough': '+ 3 arguments (4 kinds), <=3 spelling deviations in definition order, all 6 orders with <=1 deviation'},
+    bound={'quick': '2 arguments, all kinds/keys, all spellings, both orders; + the prefix triple (input, inc, in with the shortest key defined last), 2 kinds, <= 2 spelling deviations', 'thorough': '+ 3 arguments (4 kinds) in 3 definition orders, <=3 spelling deviations in definition order, all 6 orders of the uses with <=1 deviation'},
     assumptions=['values beginning with a dash are only spelled attached (= / glued): as a separate word they are keys by definition', 'flag variables start false (an initially-true flag variable is unspecified, see DESIGN appendix A4)'])
 
 _RULES = dict(engine='xenum', harness=['harness/c02_rules.cpp'], flags='asan', lib=True, level='model_checking', build_id='rules', deadline={'quick': 240, 'thorough': 2400}, hang_s=60,
     technique='bounded-exhaustive enumeration: rule-matrix configurations x ALL abstract lines up to a depth x surface spellings, executed on the real Handler; verdict from an abstract rule evaluator',
     level_note=_ARGS_NOTE,
-    bound={'quick': 'one rule family per configuration (~130 configurations x abbreviations on/off), all lines of <= 3 uses, spellings with <= 1 deviation',
+    bound={'quick': 'one rule family per configuration (~140 configurations incl. two rules on the same partner x abbreviations on/off), all lines of <= 3 uses, spellings with <= 1 deviation',
            'thorough': 'lines of <= 4 uses, <= 2 deviations, + pairs of rule families on disjoint arguments (lines <= 3 uses), more bystanders'})
 CHECKS['C02'] = dict(_RULES, title='No command line that breaks a declared rule is silently accepted', worker_args=['--opt', 'prop=C02'],
     level_text='every rule of the matrix x every abstract line of <= 3/4 uses that the evaluator calls invalid, in canonical spelling and every spelling with <= 1/2 deviations, plus surface-level mutations (unknown key, missing value, stray value, forbidden/ambiguous abbreviation): evalArguments must throw',
@@ -165,7 +165,7 @@ CHECKS['C08'] = dict(title='Evaluating through an argument group equals one hand
     level_text='every configuration of the C02/C03 rule matrix x every set partition of its arguments into <= 3 member handlers (both member creation orders) x every line of <= 2 (quick) / <= 3 (thorough) uses in canonical spelling + 1 deviation: Groups::evalArguments must accept/reject and store exactly like one Handler with the merged definition; plus duplicate-key definitions across two members in all creation/definition orders',
     level_note='reference is the single Handler (itself checked against the abstract evaluator by C01-C03); partitions that separate constraint partners are skipped; the Groups singleton is reset before and after every case',
     rule='configuration x partition (restricted growth strings) x member creation order x use sequence x spelling; states = (configuration, partition), transitions = Groups::evalArguments calls',
-    bound={'quick': 'lines <= 2 uses, abbreviations on', 'thorough': 'lines <= 3 uses, abbreviations on and off'},
+    bound={'quick': 'lines <= 2 uses (<= 3 for the order-sensitive multi-value/positional family), abbreviations on', 'thorough': 'lines <= 3 uses, abbreviations on and off'},
     assumptions=['abbreviations are only spelled when they are unambiguous in the merged definition'])
 
 CHECKS['C04'] = dict(title='Argument evaluation is memory-safe for every argument vector and source', engine='xenum',
